@@ -94,8 +94,15 @@ def actual(spec, chunks, payload_mode):
     q = asyncio.Queue()
     cls = mc.SmartMeterMessagePayloadProtocol if payload_mode else mc.SmartMeterMessageProtocol
     p = cls(q, mkreaders(spec))
-    for c in chunks:
+    # a second protocol instance with its own queue is fed other traffic in alternation: instances must not interfere
+    twin = cls(asyncio.Queue(), mkreaders(spec))
+    for i, c in enumerate(chunks):
         p.data_received(c)
+        if i < 40:
+            try:
+                twin.data_received(SEG["R"] if i % 2 else SEG["Fp"])
+            except Exception:  # noqa: BLE001
+                pass
     out = []
     while not q.empty():
         x = q.get_nowait()
